@@ -18,6 +18,7 @@ def main():
     d = tempfile.mkdtemp(prefix='baseline-')
     junit = os.path.join(d, 'junit.xml')
     env = dict(os.environ, PYTHONPATH=os.path.join(tree, 'src'))
+    before = set(subprocess.run(['git', '-C', tree, 'status', '--porcelain'], capture_output=True, text=True).stdout.splitlines())
     t = subprocess.run(['/venv/bin/python', '-m', 'pytest', '-ra', '-q', '-p', 'no:cacheprovider', '--timeout=900',
                         '--continue-on-collection-errors', f'--junitxml={junit}'] + extra, cwd=tree, env=env, capture_output=True, text=True)
     passed = set()
@@ -30,6 +31,13 @@ def main():
     for m in missing:
         print('MISSING', m)
     os.remove(junit)
+    # the tests drop result files into the tree (HIP.out ...): remove what was not there before
+    after = set(subprocess.run(['git', '-C', tree, 'status', '--porcelain'], capture_output=True, text=True).stdout.splitlines())
+    for line in sorted(after - before):
+        if line.startswith('?? '):
+            pth = os.path.join(tree, line[3:])
+            if os.path.isfile(pth):
+                os.remove(pth)
     os.rmdir(d)
     sys.exit(1 if missing else 0)
 
